@@ -45,7 +45,8 @@ RULE = ("(A) class bodies generated as source and exec'd in a fresh module: 0-5 
         "{function, classmethod, staticmethod, property (getter/setter/deleter present, absent or "
         "closure-free), functools.cached_property (0-2, with/without return annotation), custom "
         "descriptor, functools.wraps wrapper, lambda, plain attribute, nested class, user __getattr__, "
-        "own __attrs_init_subclass__} x closure use {none, __class__, zero-argument super()} (biased "
+        "own __attrs_init_subclass__, an inherited field name re-bound as a plain attribute or method; classmethod / "
+        "staticmethod / property / cached_property members also as instances of strict subclasses} x closure use {none, __class__, zero-argument super()} (biased "
         "towards bodies with exactly one user of the shared __class__ cell) x metaclass {type, custom, "
         "ABCMeta} x nesting {module level, inside a function, inside a class} x docstring x api "
         "{attr.s(slots=True), attrs.define} x weakref_slot x cache_hash x frozen x 0-3 own fields "
@@ -67,7 +68,9 @@ RULE = ("(A) class bodies generated as source and exec'd in a fresh module: 0-5 
         "copy/deepcopy/pickle of fully-set instances, histories hash -> [change a hash field] -> copy/deepcopy/pickle "
         "(fields kept, copy hashes its own fields), copies of instances holding NOTHING/None/False/0/empty containers, "
         "fields(); (B2) all 120 two-base hierarchies Leaf(Hooked, Data)/Leaf(Data, Hooked) (unslotted attrs base with a "
-        "generated hook __setattr__ x slotted attrs base x 5 leaf kinds x api) built with slots on and off; "
+        "generated hook __setattr__ x slotted attrs base x 5 leaf kinds x api) and 44 hand-built single-base bodies "
+        "(inherited field name re-bound as int/None/method/lambda; subclass instances of the member kinds) built with "
+        "slots on and off; "
         "distinct = distinct recipe / (seed,index); non-trivial = body with a closure user, a cached "
         "property, a base or a field / specification with at least one field")
 EXTRA_TRUSTED = [
@@ -127,6 +130,18 @@ def _okv(i, a, v):
     pass
 
 class M(type):
+    pass
+
+class CP2(functools.cached_property):
+    pass
+
+class Prop2(property):
+    pass
+
+class CM2(classmethod):
+    pass
+
+class SM2(staticmethod):
     pass
 '''
 
@@ -379,6 +394,20 @@ def gen_recipe(rng):
             members.append({"kind": "getattr", "name": "__getattr__", "use": None})
         elif k == "hook_own" and rng.random() < 0.3:
             members.append({"kind": "hook_own", "name": "__attrs_init_subclass__"})
+    # instances of strict SUBCLASSES of the kinds the builder tests for (isinstance everywhere)
+    for m in members:
+        if m["kind"] in ("cm", "sm", "prop", "cached") and rng.random() < 0.3:
+            m["sub"] = True
+    # an INHERITED field name re-bound in the body as a plain class attribute / method (not a field)
+    inh = {"SA": ["a", "b"], "SAnw": ["a"], "DA": ["a"], "SAH": ["a"], "SAV": ["a"], "SAV_P": ["a"], "SAV_PD": ["a"],
+           "SAC": ["a"], "DAH": ["a"], "SA_Psh": ["b"]}.get(prim, []) + (["h"] if mix == "DAV" else [])
+    inh = [n for n in inh if n not in r["fields"]]
+    if inh and rng.random() < 0.3:
+        n = rng.choice(inh)
+        if rng.random() < 0.6:
+            members.append({"kind": "plain", "name": n, "value": rng.choice(["5", "'s'", "None"])})
+        else:
+            members.append({"kind": "func", "name": n, "use": None})
     rng.shuffle(members)
     r["members"] = members
     r["own_slots_weakref"] = (not r["bases"]) and rng.random() < 0.08
@@ -404,7 +433,8 @@ def _expr(use):
 def member_lines(m):
     k, n = m["kind"], m["name"]
     if k in ("func", "descr", "wrapped", "cm", "sm"):
-        head = {"func": [], "descr": ["@Desc"], "wrapped": ["@deco"], "cm": ["@classmethod"], "sm": ["@staticmethod"]}[k]
+        head = {"func": [], "descr": ["@Desc"], "wrapped": ["@deco"], "cm": ["@CM2" if m.get("sub") else "@classmethod"],
+                "sm": ["@SM2" if m.get("sub") else "@staticmethod"]}[k]
         arg = {"cm": "cls", "sm": "o"}.get(k, "self")
         body = ["    BOX.append(%s)" % _expr(m["use"])] if m["use"] else []
         return head + ["def %s(%s):" % (n, arg)] + body + ["    return 1"]
@@ -415,10 +445,11 @@ def member_lines(m):
 
         def acc_body(u):
             return ["    BOX.append(%s)" % _expr(u)] if u not in (None, "plain") else []
+        pcls = "Prop2" if m.get("sub") else "property"
         if m["get"] is None:
-            out.append("%s = property()" % n)
+            out.append("%s = %s()" % (n, pcls))
         else:
-            out += ["@property", "def %s(self):" % n] + acc_body(m["get"]) + ["    return 1"]
+            out += ["@" + pcls, "def %s(self):" % n] + acc_body(m["get"]) + ["    return 1"]
         if m["set"] is not None:
             out += ["@%s.setter" % n, "def %s(self, v):" % n] + acc_body(m["set"]) + ["    pass"]
         if m["del"] is not None:
@@ -426,7 +457,8 @@ def member_lines(m):
         return out
     if k == "cached":
         body = ["    BOX.append(%s)" % _expr(m["use"])] if m["use"] else []
-        return ["@functools.cached_property", "def %s(self)%s:" % (n, " -> int" if m["ann"] else "")] + body + [
+        return ["@CP2" if m.get("sub") else "@functools.cached_property",
+                "def %s(self)%s:" % (n, " -> int" if m["ann"] else "")] + body + [
             "    n = COUNT.get((%r, id(self)), 0)" % n, "    COUNT[(%r, id(self))] = n + 1" % n,
             "    return ('comp', %r, id(self), n)" % n]
     if k == "getattr":
@@ -1483,6 +1515,102 @@ def _two_base_observe(r, slots):
     return obs
 
 
+# B2 continued: hand-built single-base bodies
+#   shape "rebind":   the leaf re-binds an INHERITED field name as a plain class attribute / method (not a field)
+#   shape "subkinds": members that are instances of strict subclasses of cached_property / property / classmethod /
+#                     staticmethod (next to plain ones), read through an instance in both builds
+HAND_SPACE = ([dict(shape="rebind", base_slots=bs, api=a, what=w, own_field=o)
+               for bs in (True, False) for a in ("attrs", "define") for w in ("int", "none", "func", "lambda") for o in (False, True)]
+              + [dict(shape="subkinds", api=a, frozen=f, use=u) for a in ("attrs", "define") for f in (False, True)
+                 for u in ("none", "class", "super")])
+
+_HAND_SRC = '''
+import attr, attrs, functools
+CALLS = []
+class CP2(functools.cached_property): pass
+class Prop2(property): pass
+class CM2(classmethod): pass
+class SM2(staticmethod): pass
+class Root:
+    def tag(self): return "root"
+'''
+
+
+def _hand_source(r, slots):
+    deco = ("attr.s(slots=%s%s)" if r["api"] == "attrs" else "attrs.define(slots=%s%s)")
+    if r["shape"] == "rebind":
+        src = _HAND_SRC + "@attr.s(slots=%s)\nclass Base:\n    x = attr.ib(default=1)\n    y = attr.ib(default=2)\n" % r["base_slots"]
+        body = {"int": ["x = 5"], "none": ["x = None"], "func": ["def x(self):", "    return 'method x'"],
+                "lambda": ["x = lambda self: 'lambda x'"]}[r["what"]]
+        if r["own_field"]:
+            body.append("z = attr.ib(default=3)" if r["api"] == "attrs" else "z: int = 3")
+        return src + "@%s\nclass Leaf(Base):\n%s\n" % (deco % (slots, ""), "\n".join("    " + l for l in body))
+    e = {"none": "'-'", "class": "__class__.__name__", "super": "super().__thisclass__.__name__"}[r["use"]]
+    fld = "f = attr.ib(default=0)" if r["api"] == "attrs" else "f: int = 0"
+    body = [fld,
+            "@CP2", "def c(self):", "    CALLS.append('c')", "    return ('c', %s)" % e,
+            "@functools.cached_property", "def c0(self):", "    CALLS.append('c0')", "    return ('c0', %s)" % e,
+            "@Prop2", "def p(self):", "    return ('p', %s)" % e,
+            "@p.setter", "def p(self, v):", "    CALLS.append(('p.set', v, %s))" % e,
+            "@CM2", "def cm(cls):", "    return ('cm', %s)" % e,
+            "@SM2", "def sm(o):", "    return ('sm', %s)" % e]
+    return _HAND_SRC + "@%s\nclass Leaf(Root):\n%s\n" % (deco % (slots, ", frozen=True" if r["frozen"] else ""),
+                                                             "\n".join("    " + l for l in body))
+
+
+def _hand_observe(r, slots):
+    try:
+        mod = _fresh_module(_hand_source(r, slots))
+    except Exception as e:
+        return {"def": type(e).__name__}
+    try:
+        cls = mod.Leaf
+        obs = {"def": "ok", "fields": [a.name for a in attr.fields(cls)]}
+
+        def step(fn):
+            del mod.CALLS[:]
+            r_ = _outcome(fn)
+            return [r_[1] if r_[0] == "raised" else ["ok", repr(r_[1])], [repr(c) for c in mod.CALLS]]
+        box = {}
+        obs["init"] = step(lambda: box.__setitem__("i", cls()))
+        inst = box.get("i")
+        if inst is not None:
+            if r["shape"] == "rebind":
+                for n in obs["fields"]:
+                    obs["read:" + n] = step(lambda: getattr(inst, n))
+                    obs["assign:" + n] = step(lambda: setattr(inst, n, 7))
+                obs["evolve"] = step(lambda: attr.evolve(inst, y=9))
+                obs["init-kw"] = step(lambda: cls(x=4))
+            else:
+                for n in ("c", "c", "c0", "c0", "p"):
+                    obs.setdefault("reads", []).append(step(lambda: getattr(inst, n)))
+                obs["set:p"] = step(lambda: type(inst).__dict__["p"].fset(inst, 3))
+                obs["cm"] = step(lambda: cls.cm())
+                obs["sm"] = step(lambda: cls.sm(inst))
+                obs["second-instance"] = step(lambda: cls().c)
+            obs["repr"] = _outcome(lambda: repr(inst))
+            obs["asdict"] = _outcome(lambda: sorted(attr.asdict(inst).items()))
+        return obs
+    finally:
+        _drop_module(mod)
+
+
+def hand_case(r):
+    oS, oD = _hand_observe(r, True), _hand_observe(r, False)
+    labels = sorted(set(oS) | set(oD))
+    triples, differing = [], {}
+    for l in labels:
+        a, d = oS.get(l, "<absent>"), oD.get(l, "<absent>")
+        da, dd = _digest(a), _digest(d)
+        triples.append("(%s, %d%%Z, %d%%Z)" % (q(l), da, dd))
+        if da != dd:
+            differing[l] = {"slots": a, "dict": d}
+    sig = {"kind": "slots-dict-disagree", "family": "hand-built", "shape": r["shape"],
+           "differs": "+".join(sorted(set(l.split(":")[0] for l in differing)))}
+    return Case("(CMeta %s)" % lst(triples), dict(r, family="meta3"), {"differing": differing, "facts": {"variant": r["shape"]}},
+                sig=sig, nontrivial=True, key="meta3:" + json.dumps(r, sort_keys=True))
+
+
 def two_base_case(r):
     oS, oD = _two_base_observe(r, True), _two_base_observe(r, False)
     for k in [k for k in linecache.cache if k.startswith("<attrs generated")]:
@@ -1530,6 +1658,9 @@ def generate(tier, seed):
     for r in TWO_BASE_SPACE:
         cases.append(two_base_case(r))
         _dist["meta two-bases"] += 1
+    for r in HAND_SPACE:
+        cases.append(hand_case(r))
+        _dist["meta hand-built " + r["shape"]] += 1
     n_meta = 400 if tier == "quick" else 7000
     for k in range(n_meta):
         c = meta_case(seed, k)
@@ -1547,6 +1678,8 @@ def rerun(inp):
     fam = inp.get("family")
     if fam == "meta":
         return meta_case(inp["seed"], inp["index"])
+    if fam == "meta3":
+        return hand_case({k: v for k, v in inp.items() if k != "family"})
     if fam == "meta2":
         return two_base_case({k: v for k, v in inp.items() if k != "family"})
     if fam == "body":
